@@ -100,6 +100,79 @@ fn typed_issue() -> impl Strategy<Value = simgen::GenStep> {
     ]
 }
 
+/// An empty typed list on a connection that has ended: still nothing to send, still an empty result.
+#[derive(Debug, Clone, serde::Serialize, serde::Deserialize)]
+pub struct DeadCase {
+    /// 0 peer closes while idle, 1 read error, 2 write error on the next write, 3 malformed line, 4 all
+    /// other handles dropped first (the connection is alive, control)
+    pub end: u8,
+    /// a normal request before the end / a normal request after the end, before the empty list
+    pub request_before: bool,
+    pub request_after: bool,
+    pub caller: u8,
+    pub sched_seed: u64,
+}
+
+pub fn check_dead(case: &DeadCase) -> CaseResult {
+    let mut r = CaseResult::new();
+    r.nontrivial();
+    let mut gen: Vec<simgen::GenStep> = Vec::new();
+    let ok = |tok_fields: usize| sim::ReplySpec::Ok { fields: (0..tok_fields).map(|i| (format!("k{i}"), "v".to_string())).collect(), binary: None };
+    if case.request_before {
+        gen.push(simgen::GenStep::Issue { caller: case.caller, kind: 0, replies: vec![ok(1)] });
+    }
+    let fault = match case.end % 5 {
+        0 => Some(sim::Fault::EofAfter(0)),
+        1 => Some(sim::Fault::ReadErrorAfter(0)),
+        2 => Some(sim::Fault::WriteErrorAfter(0)),
+        3 => Some(sim::Fault::Garbage(crate::core::B::from("foo bar"))),
+        _ => None,
+    };
+    if let Some(f) = fault {
+        gen.push(simgen::GenStep::Plain(Step::Fault(f)));
+    }
+    gen.push(simgen::GenStep::Plain(Step::Change(vec!["player".into()])));
+    gen.push(simgen::GenStep::Plain(Step::Advance(150)));
+    if case.request_after {
+        gen.push(simgen::GenStep::Issue { caller: case.caller ^ 1, kind: 0, replies: vec![ok(0)] });
+    }
+    // kind 4 = typed Vec of probes; no replies = the empty Vec
+    gen.push(simgen::GenStep::Issue { caller: case.caller, kind: 4, replies: Vec::new() });
+    gen.push(simgen::GenStep::Plain(Step::Advance(150)));
+    gen.push(simgen::GenStep::Issue { caller: case.caller, kind: 4, replies: Vec::new() });
+    let script = simgen::assemble(case.sched_seed, sim::SegPattern::Whole, None, gen);
+    let obs = sim::run(&script);
+    r.class(["peer_closed", "read_error", "write_error", "malformed_line", "connection_alive"][case.end as usize % 5]);
+    for (i, (_, req, state, _)) in obs.requests.iter().enumerate() {
+        if let Req::TypedVec(t) = req {
+            if t.is_empty() && *state != ReqState::Done(Outcome::Typed(Vec::new())) {
+                r.fail(format!(
+                    "request {i}: the empty typed list resolved to {state:?} on a connection in state {:?} (client reports closed: {:?}); an empty list sends nothing and yields an empty result",
+                    ["peer closed", "read error", "write error", "malformed line", "alive"][case.end as usize % 5],
+                    obs.is_closed
+                ));
+                return r;
+            }
+        }
+    }
+    r
+}
+
+pub fn dead_part() -> Box<dyn Part> {
+    Box::new(crate::core::ExhaustivePart {
+        name: "empty_list_on_ended_connection",
+        rule: "every combination of: how the connection ended before (peer closed while idle / read error / write error / malformed line / still alive) x a normal request before the end or not x a normal request after it or not x two callers x 4 select! seeds; then the empty typed Vec is issued twice: it must resolve to an empty result every time (nothing is sent, so there is nothing that could fail). non-trivial = every case",
+        space: Box::new(|_t| {
+            Box::new((0..5u8).flat_map(|end| {
+                [false, true].into_iter().flat_map(move |request_before| {
+                    [false, true].into_iter().flat_map(move |request_after| (0..2u8).flat_map(move |caller| (1..5u64).map(move |sched_seed| DeadCase { end, request_before, request_after, caller, sched_seed })))
+                })
+            }))
+        }),
+        check: Box::new(check_dead),
+    })
+}
+
 pub fn part() -> Box<dyn Part> {
     Box::new(RandomPart {
         name: "typed_pairing_sim",
